@@ -202,6 +202,10 @@ func (o *Out) OracleFail(sig, what, replay string) {
 		return
 	}
 	fmt.Fprintf(o.oracle, "%s\t%s\t%s\n", clean(sig), clean(what), clean(replay))
+	// findings survive a run that is killed by its timeout
+	o.oracle.Flush()
+	o.cases.Flush()
+	o.impl.Flush()
 }
 
 func (o *Out) Close() {
